@@ -1042,11 +1042,6 @@ def excl (ps : PState) (toks : List String) : List String × Bool :=
     match ps.obj v with
     | some (_, t) => (tag (Excl_shortStrides t) "F24", false)
     | none => ([], false)
-  | "mapply" :: v :: rest =>
-    -- F34 as for `un apply`
-    match ps.obj v with
-    | some _ => (tag (rest.any (fun t => t.startsWith "reuse=" || t.startsWith "incr=")) "F34", true)
-    | none => ([], false)
   | _ => ([], false)
 
 end Mask
